@@ -32,6 +32,21 @@ pub fn gate(bytes: &[u8]) -> Gate {
     }
 }
 
+/// The same gate when a reader that was opened on the INTACT file is handed
+/// the bytes through `map_data` (an index reload that swaps the buffer).
+pub fn gate_map_data(intact: &[u8], bytes: &[u8]) -> Gate {
+    match guard(|| match Fst::new(intact).map_err(|_| ()).and_then(|f| f.map_data(|_| bytes).map_err(|_| ())) {
+        Err(_) => Gate::OpenFails,
+        Ok(f) => match f.verify() {
+            Ok(()) => Gate::VerifyOk,
+            Err(_) => Gate::VerifyErr,
+        },
+    }) {
+        Ok(g) => g,
+        Err(p) => Gate::Panic(p),
+    }
+}
+
 fn trailer_ok(bytes: &[u8]) -> Result<(), String> {
     let n = bytes.len();
     if n < 36 {
@@ -57,6 +72,12 @@ pub fn run_mutants(bytes: &[u8], bursts: bool) -> Result<u64, String> {
         for d in 1..=255u8 {
             m[pos] = orig ^ d;
             n += 1;
+            if d.count_ones() == 1 || d == 0xff {
+                if let Gate::VerifyOk = gate_map_data(bytes, &m) {
+                    return Err(format!("byte {} changed {:#04x} -> {:#04x}: a reader opened on the intact file and handed the changed bytes through map_data says verify() Ok", pos, orig, orig ^ d));
+                }
+                n += 1;
+            }
             match gate(&m) {
                 Gate::VerifyOk => return Err(format!("byte {} changed {:#04x} -> {:#04x}: opens and verify() says Ok", pos, orig, orig ^ d)),
                 Gate::Panic(p) => return Err(format!("byte {} changed {:#04x} -> {:#04x}: {}", pos, orig, orig ^ d, p)),
@@ -198,7 +219,7 @@ pub fn replay(case: &Value) -> Result<String, String> {
 pub fn plan(tier: Tier) -> Plan {
     let mut p = Plan::new("C08", "model_checking");
     let thorough = tier.thorough();
-    p.rule = "(a) every single-byte mutant (every position x all 255 other values) and every 2-4 byte burst (xor masks {01,80,ff} per byte) of every FST built from subsets of U_ab3 with <= 3 keys (thorough: <= 5) plus fan-out FSTs: 'opens and verify()==Ok' is the violation; (b) the trailing 4 bytes of every builder output (all subsets of U_ab3/U_abc2/U_raw2 x patterns, fan-out families, single-key ladders giving every file length 37..4150 and 150 lengths around each of 2^13..2^17) equal an independent bitwise masked CRC-32C; (c) through hook H3 every 2-cut and 3-cut of buffers of length 0..64 (3 contents) and cuts at 0,1,15,16,17,31,32,33 from either end for lengths up to 4096; non-trivial = mutants + chunkings with >= 2 non-empty chunks".into();
+    p.rule = "(a) every single-byte mutant (every position x all 255 other values) and every 2-4 byte burst (xor masks {01,80,ff} per byte) of every FST built from subsets of U_ab3 with <= 3 keys (thorough: <= 5) plus fan-out FSTs: 'opens and verify()==Ok' is the violation, also when a reader opened on the intact file is handed the mutant through map_data (9 of the 255 values per position); (b) the trailing 4 bytes of every builder output (all subsets of U_ab3/U_abc2/U_raw2 x patterns, fan-out families, single-key ladders giving every file length 37..4150 and 150 lengths around each of 2^13..2^17) equal an independent bitwise masked CRC-32C; (c) through hook H3 every 2-cut and 3-cut of buffers of length 0..64 (3 contents) and cuts at 0,1,15,16,17,31,32,33 from either end for lengths up to 4096; non-trivial = mutants + chunkings with >= 2 non-empty chunks".into();
     p.assumptions = vec![
         "independent reference: bit-by-bit reflected CRC-32C (0x82F63B78), validated on the RFC 3720 vector, rotate-right-15 + 0xA282EAD8 mask".into(),
         "chunking by a sink: policy sinks (cap 1..16, Interrupted before every call) here; the full answer-schedule space is C07's".into(),
